@@ -113,7 +113,11 @@ func ap(v Val) string {
 		for i, e := range x.Elems {
 			es[i] = ap(e)
 		}
-		return "append(" + ap(x.S) + "; " + strings.Join(es, ", ") + ")"
+		sp := ""
+		if x.Spread {
+			sp = "..."
+		}
+		return "append(" + ap(x.S) + "; " + strings.Join(es, ", ") + sp + ")"
 	case *TupleV:
 		es := make([]string, len(x.Vals))
 		for i, e := range x.Vals {
